@@ -2,6 +2,7 @@ package main
 
 import (
 	"fmt"
+	"go/constant"
 	"regexp"
 	"go/ast"
 	"sort"
@@ -86,6 +87,10 @@ func (ft *funcTrans) phi(phi *ssa.Phi, b *ssa.BasicBlock, li *loopInfo, fwdPreds
 	if li != nil {
 		// havocked; well-typedness assumed
 		ft.assumeWellTyped(t, ft.curSt, ft.reach[b])
+		if phi.Comment == "rangeindex" && isRangeIndexPhi(phi) {
+			// the hidden index of a range loop starts at -1 and is only ever incremented
+			ft.assume(w.arith(">=", t, w.intLit64(-1, t.Sort)).S)
+		}
 		return
 	}
 	for i, p := range b.Preds {
@@ -658,4 +663,30 @@ func (ft *funcTrans) namesAt(b *ssa.BasicBlock) map[string]Term {
 		}
 	}
 	return env
+}
+
+// isRangeIndexPhi: entry operand is the constant -1 and every other operand is phi+1.
+func isRangeIndexPhi(phi *ssa.Phi) bool {
+	sawInit := false
+	for _, e := range phi.Edges {
+		if c, ok := e.(*ssa.Const); ok {
+			if v, ok2 := constant.Int64Val(c.Value); ok2 && v == -1 {
+				sawInit = true
+				continue
+			}
+			return false
+		}
+		bo, ok := e.(*ssa.BinOp)
+		if !ok || bo.Op != token.ADD || bo.X != phi {
+			return false
+		}
+		c, ok := bo.Y.(*ssa.Const)
+		if !ok {
+			return false
+		}
+		if v, ok2 := constant.Int64Val(c.Value); !ok2 || v != 1 {
+			return false
+		}
+	}
+	return sawInit
 }
